@@ -1,12 +1,15 @@
-# decisions: []
+# decisions: [2, 0, 1]
 def f(a, b, c):
     try:
-        try:
-            T(1)
-        except:
-            T(2)
-        else:
-            raise E0()
+        for v in L(1):
+            try:
+                T(2)
+            except:
+                T(3)
+            else:
+                if D(4):
+                    raise E0()
+                T(5)
     except E0:
-        T(3)
-    T(4)
+        T(6)
+    T(7)
